@@ -32,6 +32,11 @@ CLAIMED = {
    note="Trusted: ring layer over fr.Element; documented MiMC exponents/round counts and Poseidon2 matrices; the round-constant tables are fixed arrays whose derivation is not under contract; interface fr.ByteOrder assumed (its implementations are proved under C08). Not under contract: Poseidon2 round schedule and wrappers, small-field Poseidon2, ring-SIS, Merkle-Damgard wrapper, registry.",
    technique="contract-based deductive verification: loop invariants against recursive SMT specification functions, strict slice-bound obligations, ring-layer identities",
    design="§5 C14"),
+ "C15": dict(
+   text="Deductive proof of the guard, error-path and ownership clauses of the Fiat-Shamir transcript: Bind refuses unknown / computed challenges with the documented errors and never retains the caller's slice; ComputeChallenge refuses unknown challenges, computes a challenge at position > 0 only when the last computed challenge is its immediate predecessor, and returns only freshly allocated slices (no aliasing with transcript state).",
+   note="The map of challenges and the bound values are not modelled (lookups yield arbitrary records), so the hashed content of a challenge is NOT under contract; hash.Hash is an assumed interface contract. Ownership is decided by the VC generator's escape tracking.",
+   technique="contract-based deductive verification with opaque map/aggregate-slice modelling, nullable pointers, escape/ownership obligations",
+   design="§5 C15"),
  "C16": dict(
    text="Deductive proof for the Vortex Poseidon2 Merkle proof verifier: MerkleProof.Verify returns nil exactly when the fold of the leaf along the proof (left/right chosen by the bits of the index; loop invariant against a recursive specification with the compression function uninterpreted) equals the root and the index lies in [0, 2^len(proof)).",
    note="Trusted: CompressPoseidon2 is a deterministic function of its two arguments (assumed contract); i >> n == 0 iff 0 <= i < 2^n. Not under contract: BuildMerkleTree / Open (nested slices, parallel.Execute) and the accumulator/merkletree package (bounded stand-in not built).",
